@@ -1880,6 +1880,14 @@ fn compile_aexpr_effect(goenv: &GlobalGoEnv, gensym: &Gensym, e: anf::AExpr) -> 
                     out.extend(compile_aexpr_effect(goenv, gensym, *body));
                     return out;
                 }
+                simple @ anf::CExpr::ECall { .. } if is_missing_call(&simple) => {
+                    out.push(goast::Stmt::VarDecl {
+                        name: go_ident(&name),
+                        ty: cexpr_ty(goenv, &simple),
+                        value: None,
+                    });
+                    out.push(goast::Stmt::Expr(compile_cexpr(goenv, &simple)));
+                }
                 simple @ anf::CExpr::ECall { .. } => {
                     out.push(goast::Stmt::VarDecl {
                         name: go_ident(&name),
@@ -1944,6 +1952,14 @@ fn compile_while(
     stmts
 }
 
+fn is_missing_call(e: &anf::CExpr) -> bool {
+    matches!(
+        e,
+        anf::CExpr::ECall { func, .. }
+            if matches!(func, anf::ImmExpr::ImmVar { name, .. } if name == "missing")
+    )
+}
+
 fn compile_aexpr_assign(
     goenv: &GlobalGoEnv,
     gensym: &Gensym,
@@ -1995,10 +2011,15 @@ fn compile_aexpr_assign(
                 value: compile_cexpr(goenv, &other),
             }],
             anf::CExpr::ECall { func, args, ty } => {
-                vec![goast::Stmt::Assignment {
-                    name: go_ident(target),
-                    value: compile_cexpr(goenv, &anf::CExpr::ECall { func, args, ty }),
-                }]
+                let call = anf::CExpr::ECall { func, args, ty };
+                if is_missing_call(&call) {
+                    vec![goast::Stmt::Expr(compile_cexpr(goenv, &call))]
+                } else {
+                    vec![goast::Stmt::Assignment {
+                        name: go_ident(target),
+                        value: compile_cexpr(goenv, &call),
+                    }]
+                }
             }
             anf::CExpr::EDynCall {
                 trait_name,
@@ -2069,6 +2090,14 @@ fn compile_aexpr_assign(
                     });
                     out.extend(compile_aexpr_assign(goenv, gensym, target, *body));
                     return out;
+                }
+                simple @ anf::CExpr::ECall { .. } if is_missing_call(&simple) => {
+                    out.push(goast::Stmt::VarDecl {
+                        name: go_ident(&name),
+                        ty: cexpr_ty(goenv, &simple),
+                        value: None,
+                    });
+                    out.push(goast::Stmt::Expr(compile_cexpr(goenv, &simple)));
                 }
                 simple @ anf::CExpr::ECall { .. } => {
                     out.push(goast::Stmt::VarDecl {
@@ -2181,6 +2210,14 @@ fn compile_aexpr(goenv: &GlobalGoEnv, gensym: &Gensym, e: anf::AExpr) -> Vec<goa
                     });
                     stmts.extend(compile_aexpr(goenv, gensym, *body));
                     return stmts;
+                }
+                simple @ anf::CExpr::ECall { .. } if is_missing_call(&simple) => {
+                    stmts.push(goast::Stmt::VarDecl {
+                        name: go_ident(&name),
+                        ty: cexpr_ty(goenv, &simple),
+                        value: None,
+                    });
+                    stmts.push(goast::Stmt::Expr(compile_cexpr(goenv, &simple)));
                 }
                 simple @ anf::CExpr::ECall { .. } => {
                     stmts.push(goast::Stmt::VarDecl {
